@@ -11,8 +11,8 @@ claim("C06", "proof",
       "(postcondition = the statement, loop invariants over ghost folds, callee preconditions, exception clauses) generated from "
       "/repo's current AST is discharged by cvc5/z3 for all inputs and all iteration counts; the same contracts are also evaluated "
       "at run time on an exhaustive small scope as a labelled bounded stand-in.",
-      "Trusted: pyvc executor/value model, spec library, list-homomorphism lemma schemas, solver unsat answers, assumed contract of "
-      "fmtstr on plain strings; __len__/.s bodies are verified in C13.",
+      "Trusted: pyvc executor/value model, spec library, list-homomorphism lemma schemas, solver unsat answers; fmtstr on strings free of "
+      "ESC[ is verified here too (fmtstr#plain, FmtStr.from_str#plain), no longer assumed; __len__/.s bodies are verified in C13.",
       "contract-based deductive verification (AST->VC, cvc5/z3) + bounded run-time contract checking", "DESIGN 9/C06")
 claim("C09", "proof",
       "Contracts on the real FmtStr.splice, divides, append: the five-way overlap case split is proved against the statement's "
@@ -35,12 +35,18 @@ claim("C18", "exploration",
       "is regex-driven and decided by an exhaustive bounded suite over scripted streams only.",
       "Assumed: get_cursor_position returns the reported (row, col); nested calls arrive only inside the query; bounds in evidence.rule.",
       "contract-based deductive verification (integer bookkeeping) + exhaustive bounded checking of the regex parse", "DESIGN 9/C18")
-claim("C10", "exploration",
-      "interval_overlap, Chunk.width, FmtStr.width (memo) and width_at_offset are proved against contracts over an assumed wcswidth; "
-      "the column cutter and the run walk of width_aware_slice are decided by an exhaustive bounded suite against a column model "
-      "(strings <=4 over narrow/wide/combining x all 3-run layouts x all ranges).",
-      "Assumed contract of cwcwidth (probed); cutter and run walk not under deductive contract (stated bound).",
-      "contract-based deductive verification (width functions) + exhaustive bounded checking against a column model", "DESIGN 9/C10")
+claim("C10", "proof",
+      "Every clause of the statement is carried by discharged obligations on the real code: Chunk.width, FmtStr.width (memo) and "
+      "width_at_offset against the column count; interval_overlap; the per-character cutter width_aware_slice(s, a, b) (two loops: "
+      "column prefix sums, then the cut) against the fold BCUT written from the statement (characters wholly inside kept, a double-width "
+      "character cut by an edge becomes one blank, width = requested columns that exist); the run walk FmtStr.width_aware_slice(a:b), "
+      "0 <= a <= b, over the cutter's contract against the fold RUNCUT (each run's cut with that run's formatting) for any number of "
+      "runs.  Bounded stand-in: every string <=4 over narrow/wide/combining x all 3-run layouts x all ranges against an independent column model.",
+      "Assumed: contract of cwcwidth (wcwidth in 0..2 for measurable text, wcswidth = sum; probed); placement of zero-width characters "
+      "next to a cut is not specified by the statement (bounded: never invented, in order); fold lemma schemas of the column model are "
+      "proved in Lean (lean/Columns.lean) and re-validated on the executable model each run; int / open / negative indices of the method "
+      "are covered by the bounded suite only.",
+      "contract-based deductive verification (AST->VC with ghost folds, cvc5/z3, Lean lemma schemas) + exhaustive bounded checking against a column model", "DESIGN 9/C10")
 
 claim("C01", "proof",
       "Chunk.color_str is decided by a complete finite split over all 59 049 attribute dicts (quick: 6 561) with the run's text an opaque "
@@ -58,9 +64,10 @@ claim("C04", "exploration",
       "contract-based deductive verification of the row primitive + bounded history checking against a grid model", "DESIGN 9/C04")
 claim("C14", "exploration",
       "FrozenAttributes.extend/remove decided by a complete finite split over key presence with symbolic values; copy_with_new_atts and "
-      "new_with_atts_removed proved pointwise (for every run: same text, attributes = extend/remove of the old ones); parse_args, "
-      "shared_atts, copy_with_new_str, fmtfuncs decided by exhaustive-finite / bounded evaluation against the statement.",
-      "Attribute keys within the 8 names; parse_args et al. not under deductive contract; known finding: style values not type-checked.",
+      "new_with_atts_removed proved pointwise (for every run: same text, attributes = extend/remove of the old ones); shared_atts proved "
+      "to report only key/value pairs that every run with characters holds (loop invariant over a symbolic attribute key, all() as a "
+      "quantified fact); parse_args, copy_with_new_str, fmtfuncs decided by exhaustive-finite / bounded evaluation against the statement.",
+      "Attribute keys within the 8 names; parse_args, copy_with_new_str not under deductive contract; known finding: style values not type-checked.",
       "finite split + contract-based deductive verification (pointwise map contracts) + exhaustive-finite evaluation of parse_args", "DESIGN 9/C14")
 claim("C19", "exploration",
       "FmtStr.__eq__/__hash__ and Chunk.__eq__/__hash__ proved against 'equal iff same terminal string' / 'hash is a function of it'; "
@@ -91,10 +98,11 @@ claim("C16", "exploration",
       "linesplit is regex-driven list building, outside the deductive subset (DESIGN 10).",
       "exhaustive bounded checking against a reference wrap (no deductive claim)", "DESIGN 9/C16")
 claim("C17", "exploration",
-      "Bounded only, exhaustive: every string of length <=5 (<=6 thorough, 17.9M) over a 16-symbol escape alphabet plus real-world samples "
-      "against an independent escape-sequence scanner.",
-      "from_str/parse/remove_ansi are regex-driven, outside the deductive subset (DESIGN 10).",
-      "exhaustive bounded checking against an independent scanner (no deductive claim)", "DESIGN 9/C17")
+      "Exhaustive bounded: every string of length <=5 (<=6 thorough, 17.9M) over a 16-symbol escape alphabet plus real-world samples "
+      "against an independent escape-sequence scanner.  Deductive sub-result (all strings): a string in which ESC[ does not occur comes "
+      "back from the real fmtstr / FmtStr.from_str as one unformatted run with exactly that text.",
+      "parse/peel_off_esc_code/remove_ansi (the ESC[ branch of from_str) are regex-driven, outside the deductive subset (DESIGN 10).",
+      "exhaustive bounded checking against an independent scanner + contract-based deductive verification of the escape-free branch", "DESIGN 9/C17")
 
 claim("C03", "exploration",
       "Per-call contract of get_key/_key_name/decodable/could_be_unfinished_* proved for every byte string of every length 1..MAX+1 "
